@@ -245,9 +245,6 @@ func checkC14(c genCase) pbt.Result {
 		if pbt.Known("F7") && !pbt.Replaying() && c.Edit == "hostile-field-name" && isF7(out) {
 			return pbt.Result{Excluded: "F7"}
 		}
-		if pbt.Known("F44") && !pbt.Replaying() && c.Edit == "case-twin" && (strings.Contains(out, "case-insensitive import collision") || strings.Contains(out, "case-insensitive file name collision")) {
-			return pbt.Result{Excluded: "F44"} // constructors that differ only by letter case: one package (--split-internal) or one file each
-		}
 		return pbt.Fail("tl2gen accepted the schema (edit %s, options %v) but the generated code does not build:\n%s", c.Edit, c.Args, tailStr(out, 12))
 	}
 	_, files := treeHash(outdir)
